@@ -12,6 +12,7 @@ import (
 	"crypto/ed25519"
 	"encoding/json"
 	"fmt"
+	"github.com/brutella/hc/hap"
 	"math/rand"
 	"strings"
 
@@ -127,6 +128,7 @@ func checkC01(c *Ctx) {
 		"and values / remote-update callbacks / subscriptions / stored pairings / pairing events unchanged")
 	c.Assume("net/http request parsing and the remote-address → session mapping are exercised, not modelled; connection ids are unique in the model")
 	checkC01E2E(c)
+	c01SameRemote(c)
 
 	// ---------------- (B) in-process histories
 	n := c.Pick(150, 12000)
@@ -494,4 +496,58 @@ func c01Forge(r *rand.Rand, post postFn, variant int) *refIdentity {
 	sub := tlvMsg(tlvOp{tID, []byte(id.Name)}, tlvOp{tPubKey, id.Pub}, tlvOp{tSig, ed25519.Sign(id.Priv, info)})
 	post("/pair-setup", tlvMsg(tlvOp{tState, b1(5)}, tlvOp{tEnc, refSeal(encKey, []byte("PS-Msg05"), sub, nil)}))
 	return id
+}
+
+// c01SameRemote: two connections that are open at the same time and have the SAME remote address (the accessory listens on
+// several local addresses; the peer binds one source port for both). They are two connections: what one has proved does
+// not count for the other — neither the verification (C01) nor the progress of a pair-setup exchange (C02).
+func c01SameRemote(c *Ctx) {
+	for i := 0; i < c.Pick(4, 60); i++ {
+		id := c.CaseID("same-remote", i)
+		if c.Skip(id) {
+			continue
+		}
+		r := c.CaseRng("same-remote", i)
+		w, err := newC01World(c)
+		if err != nil {
+			c.Violate("C01 fixture cannot be built", id, nil, "fixture", err.Error())
+			continue
+		}
+		remote := fmt.Sprintf("10.0.7.%d:%d", 1+r.Intn(200), 1024+r.Intn(60000))
+		a, b := remote+"#127.0.0.1:5001", remote+"#127.0.0.2:5001"
+		ident := newRefIdentity(r, "ctrl-same")
+		w.f.db.SaveEntity(db.NewEntity(ident.Name, ident.Pub, nil))
+		// both connections are open
+		w.f.Conn(a)
+		w.f.Conn(b)
+		vr := refPairVerify(r, w.f.Post(a), ident, w.f.device.PublicKey())
+		responseWritten(w.f.ctx, w.f.raw[a])
+		in := map[string]interface{}{"remote_address_of_both": remote, "local_addresses": []string{localOf(a), localOf(b)}}
+		if vr.Shared == nil {
+			c.Violate("paired reference controller cannot verify", id, in, "verified", vr.ErrAt)
+		}
+		before := w.snapshot([]string{a, b})
+		st, body, _, pm := w.f.Do(b, "GET", "/accessories", "", nil)
+		if out := classify(st, body, pm); out != "refused" || bytes.Contains(body, []byte(canary)) {
+			c.Violate("one connection's verification carried over to another connection (same remote address, another local address)", id, in,
+				"HTTP 470 {status:-70401}", fmt.Sprintf("%d %s %s", st, trunc(string(body), 120), pm))
+		}
+		if after := w.snapshot([]string{a, b}); after != before {
+			c.Violate("refused request changed accessory state", id, in, before, after)
+		}
+		// a peer resets a connection and reconnects from the same address while the old connection's handler is still running:
+		// the late Close of the old connection must not take the new connection's session away
+		late := fmt.Sprintf("10.0.8.%d:%d", 1+r.Intn(200), 1024+r.Intn(60000))
+		oldRaw, newRaw := &fakeConn{addr: late}, &fakeConn{addr: late}
+		oldConn := hap.NewConnection(oldRaw, w.f.ctx)
+		hap.NewConnection(newRaw, w.f.ctx)
+		s2 := w.f.ctx.GetSessionForConnection(newRaw)
+		oldConn.Close()
+		if got := w.f.ctx.GetSessionForConnection(newRaw); got == nil || got != s2 {
+			c.Violate("closing an old connection removes the session of the connection that replaced it (same addresses): the new connection stays open but is no longer served or notified", id,
+				map[string]interface{}{"address": late}, "session of the new connection kept", fmt.Sprint(got))
+		}
+		c.Count(id, true, "stream:same-remote")
+		w.f.Close()
+	}
 }
